@@ -45,6 +45,12 @@ class SimDisk(object):
 
     def disarm(self):
         self.crash_at = None
+        self.full_at = None
+
+    def arm_full(self, k):
+        """From the k-th mutating event from now on the disk is full: whatever would make a file
+        grow fails with ENOSPC (and keeps failing); rewrites in place still succeed."""
+        self.full_at = self.seq + k
 
     # -- file operations used by SimFile ------------------------------------
     def create(self, path, truncate):
@@ -59,6 +65,10 @@ class SimDisk(object):
             self._event(path, "create", 0, b"")
 
     def _maybe_crash(self, path, kind, offset, data):
+        if getattr(self, "full_at", None) is not None and self.seq + 1 >= self.full_at and kind in ("append", "anomalous", "create", "resize"):
+            if kind != "resize" or offset > len(self.files.get(path, b"")):
+                self.full_hits = getattr(self, "full_hits", 0) + 1
+                raise OSError(errno.ENOSPC, "No space left on device", path)
         if self.crash_at is not None and self.seq + 1 >= self.crash_at:
             self.crash_at = None
             self.crashed = True
